@@ -518,7 +518,10 @@ def discharge(ctx, m, inv_ok, cr, b, bi, kind, term, T):
         except L.Unknown:
             pass
         # (2) invariant I of the line writer: capacity - written
-        if m is not None and m.ok and b.path == m.write.path:
+        # (in write(), or in any other method of the writer that reads both fields as they are on entry: the invariant holds
+        # between calls because only write/flush/the constructor touch them - M10)
+        if m is not None and m.ok and (b.path == m.write.path or (getattr(b, 'impl_self', None) and type_head(b.impl_self) == W.MLW and
+                                                                  b.path not in (m.flush.path, m.with_ending.path))):
             if m.atom(a) == 'C' and m.atom(c) == 'W':
                 if inv_ok:
                     return True, 'D1: capacity - written >= 0 by invariant I (written <= capacity), premises M2,M5,M8w,M9,M10 hold'
